@@ -1,7 +1,8 @@
 (* C10 -- Text encoding is transparent.  Statements only, each closed by
    [exact] of a lemma from Proofs/ (EncodingFacts, TransparencyFacts), followed
    by Print Assumptions; then pins, non-vacuity examples and the refutation
-   witnesses of the full statement (known findings D5, D6). *)
+   witnesses of the full statement (known finding D5) and the readings of the
+   inputs of the repaired finding D6. *)
 From RM Require Import Model.Text Model.Encoding Model.Reader Model.DrvIO.
 From RM Require Import Proofs.EncodingFacts Proofs.ReaderFacts Proofs.TransparencyFacts Proofs.IoWitnesses.
 From RM Require Import Gen.Generated.
@@ -94,7 +95,8 @@ Print Assumptions C10_utf8_plain_stream_lines.
      forall s, scalar_str s ->
        one_chunk (utf8_enc s) = one_chunk (bom_utf8 ++ utf8_enc s)
        = one_chunk (bom_le ++ utf16le_enc s) = one_chunk (bom_be ++ utf16be_enc s).
-   Proved outside the known classes: [lf_safe s] excludes D5 (a UTF-16 code
+   Proved outside the known classes (D6 is repaired and no longer one of
+   them): [lf_safe s] excludes D5 (a UTF-16 code
    unit other than U+000A with a byte 0x0A); [good_start] and, for the
    BOM-less form, a length of at least three bytes exclude D4; a BOM-less
    text that itself starts with U+FEFF *is* a text with BOM (interpretation).
@@ -119,15 +121,15 @@ Theorem C10_lf_safe_decidable : forall s, lf_safeb s = true <-> lf_safe s.
 Proof. exact lf_safeb_spec. Qed.
 Print Assumptions C10_lf_safe_decidable.
 
-(* D6 is the only way a clean stream can fail: on a faultless delivery outside
-   the D4 class an error arises only in the UTF-16LE arm, and it is
-   UnexpectedEof *)
-Theorem C10_clean_stream_error_only_le : forall b s k,
-  faultless s -> good_start (length b) s = true ->
-  read_all_lines (mk_reader b s) = IoErr k ->
-  fst (from_bom b) = Utf16LE /\ k = UnexpectedEof.
-Proof. exact clean_stream_error_only_le. Qed.
-Print Assumptions C10_clean_stream_error_only_le.
+(* a clean stream never fails, whatever its encoding and its bytes: on every
+   faultless delivery the decode yields a list of lines (D6 -- UnexpectedEof
+   for a UTF-16LE stream ending right after the low byte of a line feed -- is
+   repaired; the former statement was "an error arises only in the UTF-16LE
+   arm, and it is UnexpectedEof") *)
+Theorem C10_clean_stream_never_fails : forall b s,
+  faultless s -> exists ls, read_all_lines (mk_reader b s) = IoDone ls.
+Proof. exact clean_stream_never_fails. Qed.
+Print Assumptions C10_clean_stream_never_fails.
 
 (* ---------- non-vacuity ---------- *)
 
@@ -164,12 +166,19 @@ Example C10_d5_readings :
   show (one_chunk (bom_be ++ utf16be_enc d5_text)) = show (IoDone [lit "Title:" ++ [19978]; [120]]).
 Proof. vm_compute. repeat split. Qed.
 
-(* D6: a UTF-16LE stream that ends right after the low byte of a line feed:
-   the odd trailing byte is not dropped, the decode fails with UnexpectedEof
-   although the reader reported no error (the schedule is empty) *)
-Theorem C10_odd_tail_refuted :
+(* former D6 (repaired): a UTF-16LE stream that ends right after the low byte
+   of a line feed.  The odd trailing byte is a last raw line that decodes to
+   the empty string (C10_odd_tail_le): the lines of the text, then one blank
+   line, which the framing layer ignores (C05); no error *)
+Theorem C10_odd_tail_decodes :
   exists s x, scalar_str s /\
-    one_chunk (bom_le ++ utf16le_enc s ++ [x]) = IoErr UnexpectedEof /\
+    one_chunk (bom_le ++ utf16le_enc s ++ [x]) = IoDone (lines_of_text s ++ [[]]) /\
     one_chunk (bom_le ++ utf16le_enc s) = IoDone (lines_of_text s).
-Proof. exact odd_tail_refuted. Qed.
-Print Assumptions C10_odd_tail_refuted.
+Proof. exact odd_tail_decodes. Qed.
+Print Assumptions C10_odd_tail_decodes.
+
+Example C10_former_d6_readings :
+  show (one_chunk (bom_le ++ utf16le_enc (lit "ab" ++ [10]) ++ [10])) = show (IoDone [lit "ab"; []]) /\
+  show (one_chunk (bom_le ++ utf16le_enc (lit "ab") ++ [10])) = show (IoDone [lit "ab"]) /\
+  show (one_chunk (bom_le ++ utf16le_enc (lit "ab" ++ [10]))) = show (IoDone [lit "ab"]).
+Proof. vm_compute. repeat split. Qed.
